@@ -48,7 +48,7 @@ def make_universe(kind):
 
 MUTATORS = ('add', 'discard', 'remove', 'pop', 'clear', 'ior', 'iand', 'isub', 'ixor',
             'new', 'binop')
-OP_KINDS = ('add', 'discard', 'remove', 'pop', 'clear', 'ior', 'iand', 'isub', 'ixor',
+OP_KINDS = ('ior_fail', 'add', 'discard', 'remove', 'pop', 'clear', 'ior', 'iand', 'isub', 'ixor',
             'new', 'binop', 'eq', 'cmp', 'observe', 'iter_open', 'iter_next', 'iter_close',
             'bad_remove', 'bad_pop')
 
@@ -137,7 +137,8 @@ class OsetEngine(Engine):
                      (2, 'binop'), (2, 'eq'), (1, 'cmp'), (1, 'observe')]
             table = [(w, k) for w, k in table if k not in disabled]
             if cfg['p_fault']:
-                table += [(cfg['p_fault'] * 12, 'bad_remove'), (cfg['p_fault'] * 6, 'bad_pop')]
+                table += [(cfg['p_fault'] * 12, 'bad_remove'), (cfg['p_fault'] * 6, 'bad_pop'),
+                          (cfg['p_fault'] * 5, 'bad_ior')]
             if cfg['p_iter'] and free:
                 table.append((cfg['p_iter'] * 10, 'iter_open'))
             if iters:
@@ -220,6 +221,15 @@ class OsetEngine(Engine):
                 if not cand:
                     continue
                 op.update(op='remove', e=rng.choice(cand), fault='F1')
+            elif kind == 'bad_ior':
+                # an operand that fails part-way (an unhashable element, or an iterator that raises): the elements
+                # before the fault have arrived, the set must stay a consistent set
+                els = rng.sample(range(UNIVERSE_N), rng.randint(0, 3))
+                op.update(op='ior_fail', e=els, how=rng.choice(['unhashable', 'raising_iterator', 'unhashable_gen']),
+                          fault='F1')
+                for e in els:
+                    if e not in cur:
+                        cur.append(e)
             elif kind == 'bad_pop':
                 if cur:
                     ops.append({'a': actor, 'op': 'clear', 's': s})
@@ -503,6 +513,33 @@ class OsetEngine(Engine):
                         raise Violation('outcome', 'in-place operator %s rebound set %d to a new object' % (kind, s))
                     if aliased:
                         bump(probes, 'aliased_inplace')
+                elif kind == 'ior_fail':
+                    invalidate(s)
+                    els = [U[e] for e in op['e']]
+                    before = real[s]
+
+                    def raising():
+                        for x_ in list(els):
+                            yield x_
+                        raise ValueError('operand exhausted by a fault')
+                    if op['how'] == 'unhashable':
+                        operand, exc = list(els) + [[]], TypeError
+                    elif op['how'] == 'unhashable_gen':
+                        operand, exc = (y_ for y_ in list(els) + [{}]), TypeError
+                    else:
+                        operand, exc = raising(), ValueError
+                    bump(faults, 'F1_ior_operand_fails')
+                    try:
+                        real[s] |= operand
+                    except exc:
+                        outcome = exc.__name__
+                    else:
+                        raise Violation('outcome', 'in-place union with a failing operand (%s) did not raise on set %d'
+                                        % (op['how'], s))
+                    real[s] = before
+                    for e in els:
+                        if e not in ref[s]:
+                            ref[s].append(e)
                 elif kind == 'binop':
                     r = op['r']
                     if r >= nsets:
@@ -613,7 +650,7 @@ class OsetEngine(Engine):
                 'nontrivial': bool(states), 'lines': 0}
 
     def reach_missing(self, prop, tier, probes, faults):
-        need = ['F1_remove_missing', 'F1_pop_empty', 'F7_iter_remove_current']
+        need = ['F1_remove_missing', 'F1_pop_empty', 'F7_iter_remove_current', 'F1_ior_operand_fails']
         missing = [k for k in need if not faults.get(k)]
         missing += [k for k in ('iter_exhausted', 'order_adopted', 'aliased_inplace', 'eq_true', 'eq_false', 'operand_with_duplicates')
                     if not probes.get(k)]
